@@ -129,19 +129,27 @@ class C05(PropertyCheck):
         nsets = 60 if tier == 'quick' else 600
         jobs, terms, meta = [], [], []
         pool = param_pool('T', 'U')
-        for si in range(nsets):
-            name = 'to_str' if rng.random() < 0.25 else 'ov'
-            n = rng.choice([1, 2, 2, 3, 3, 4, 5, 6])
-            ovs = []
+        # designated sets (always run): a user overload of a library name against the library's exact and dynamic overloads of that name
+        designated = []
+        for params in ([gen('T')], [nat('Sequence', gen('T'))], [nat('Sequence', INT)], [nat('Optional', gen('T'))], [tup(gen('T'), gen('U'))], [INT], [comp('Z')]):
+            for arg in (nat('Sequence', INT), nat('Optional', INT), tup(INT, STR), INT, comp('Z'), nat('Sequence', nat('Sequence', INT))):
+                designated.append(([Ov(1, list(params), 1, 0)], [arg]))
+        designated.append(([Ov(1, [gen('T')], 1, 0), Ov(2, [nat('Sequence', gen('T'))], 1, 1)], [nat('Sequence', INT)]))
+        designated.append(([Ov(1, [gen('T')], 1, 0), Ov(2, [nat('Sequence', INT)], 1, 0)], [nat('Sequence', INT)]))
+        for si in range(nsets + len(designated)):
+            fixed = designated[si - nsets] if si >= nsets else None
+            name = 'to_str' if (fixed or rng.random() < 0.25) else 'ov'
+            n = rng.choice([1, 2, 2, 3, 3, 4, 5, 6]) if not fixed else 0
+            ovs = list(fixed[0]) if fixed else []
             for k in range(n):
                 ar = rng.choice([1, 1, 1, 2, 2, 3])
                 params = [rng.choice(pool) for _ in range(ar)]
                 nreq = ar if rng.random() < 0.7 else ar - 1
                 ovs.append(Ov(k + 1, params, nreq, 1 if rng.random() < 0.3 else 0))
-            if rng.random() < 0.15 and ovs:
+            if not fixed and rng.random() < 0.15 and ovs:
                 o = rng.choice(ovs)                   # an exact duplicate signature at the other level
                 ovs.append(Ov(len(ovs) + 1, o.params, o.nreq, 1 - o.level))
-            for ci in range(3):
+            for ci in range(3 if not fixed else 1):
                 # call site: mostly derived from one overload's parameters so that something matches
                 o = rng.choice(ovs)
                 args = []
@@ -155,6 +163,8 @@ class C05(PropertyCheck):
                     args = args + [rng.choice(ARG_POOL)] if rng.random() < 0.5 or not args else args[:-1]
                 if name == 'to_str' and rng.random() < 0.6:
                     args = [rng.choice(ARG_POOL)]
+                if fixed:
+                    args = list(fixed[1])
                 variants = [('original', ovs)]
                 perms = list(itertools.permutations(ovs)) if len(ovs) <= 4 else [tuple(rng.sample(ovs, len(ovs))) for _ in range(6)]
                 if tier == 'quick' and len(perms) > 6:
@@ -218,7 +228,8 @@ class C05(PropertyCheck):
             lines.append('fn c0() -> str { ov(' + ', '.join(ARG_EXPR[x] for x in args_b) + ') }')
             # candidates visible inside b's body: b itself (recursion cell), a (forward), and the overloads declared before b
             vis_inner = [o for o in order[:pos_b + 1]] + [a]
-            fjobs.append({'id': f'f{fi}', 'src': '\n'.join(lines), 'calls': ['c0']})
+            # a depth limit: a generated body may legitimately call itself for ever (that case is not compared)
+            fjobs.append({'id': f'f{fi}', 'src': '\n'.join(lines), 'calls': ['c0'], 'limits': {'depth': 40}})
             fterms.append(f'obs_resolve [{"; ".join(o.coq() for o in vis_inner)}] [] {clist(args_a)}')
             fterms.append(f'obs_resolve [{"; ".join(o.coq() for o in ovs)}] [] {clist(args_b)}')
             fmeta.append({'forward': a.tag, 'caller': b.tag, 'inner_arguments': [x.show() for x in args_a], 'outer_arguments': [x.show() for x in args_b]})
